@@ -64,6 +64,42 @@ Proof.
 Qed.
 Print Assumptions C01_oneline_records_exact.
 
+(* T4' (n-lines-per-record formats, repaired code incl. the end-of-file check of /repo 03a5b64): for EVERY file - no
+   assumption on its text - a stream that completes has delivered whole records and left only an ignorable tail: the
+   newline-terminated text is body ++ tail, body = the concatenated chunks = a whole number of records, tail = fewer
+   than n lines of white space (what the reader drops).  A file that ends inside a record therefore never completes
+   (it raises FormatException, C15). *)
+Theorem C01_oneline_complete_or_error :
+  forall n hdr plus m k file chunks dropped app lines,
+    (1 <= n)%nat -> (1 <= k)%nat ->
+    read_chunks true (OneLine n hdr plus) m k file = Done chunks dropped app lines ->
+    exists body tail, norm_text file = (body ++ tail)%list /\ whole n body
+                      /\ leftover_ok (OneLine n hdr plus) tail = true /\ (count_nl tail < n)%nat
+                      /\ List.concat chunks = body /\ dropped = tail.
+Proof. exact (fun n hdr plus m k file chunks dropped app lines Hn => oneline_complete_or_error n hdr plus Hn m k file chunks dropped app lines). Qed.
+Print Assumptions C01_oneline_complete_or_error.
+
+(* T4 without its hypothesis on the text: the chunks are whole records ending at line breaks, and together with the
+   dropped ignorable tail they are the terminated file; the lines of the chunks are the lines of the text up to
+   that tail *)
+Theorem C01_oneline_chunks_tail :
+  forall n hdr plus m k file chunks dropped app lines,
+    (1 <= n)%nat -> (1 <= k)%nat ->
+    read_chunks true (OneLine n hdr plus) m k file = Done chunks dropped app lines ->
+    (List.concat chunks ++ dropped)%list = norm_text file
+    /\ leftover_ok (OneLine n hdr plus) dropped = true /\ (count_nl dropped < n)%nat
+    /\ Forall (whole n) chunks /\ Forall (fun c => ends_nl c = true) chunks.
+Proof. exact (fun n hdr plus m k file chunks dropped app lines Hn => oneline_chunks_tail n hdr plus Hn m k file chunks dropped app lines). Qed.
+Print Assumptions C01_oneline_chunks_tail.
+
+Theorem C01_oneline_records_tail :
+  forall n hdr plus m k file chunks dropped app lines_read,
+    (1 <= n)%nat -> (1 <= k)%nat ->
+    read_chunks true (OneLine n hdr plus) m k file = Done chunks dropped app lines_read ->
+    lines (norm_text file) = (List.concat (map lines chunks) ++ lines dropped)%list.
+Proof. exact (fun n hdr plus m k file chunks dropped app lr Hn => oneline_records_tail n hdr plus Hn m k file chunks dropped app lr). Qed.
+Print Assumptions C01_oneline_records_tail.
+
 (* T5 (wrapped FASTA; repaired code): for EVERY file, every chunk size >= 1 and both reader modes, a completed stream
    has dropped exactly the new-entry marker that was appended at end of file, the concatenated chunks are the
    newline-terminated file, and every chunk starts at a record ('>') and ends at a line break. *)
@@ -148,6 +184,15 @@ Proof.
     | exact b_plus_line | exact b_plus_wins | exact b_delim_size | exact b_parse_error_line ].
 Qed.
 Print Assumptions C01_source_tie.
+
+(* Source tie for the end-of-file check (parser.py __check_nothing_left and its call sites, regenerated on every run):
+   the ignorable bytes, and the line reported for an entry cut short. *)
+Theorem C01_eof_check_source_tie :
+  (forall f c, ignorable f c = existsb (Z.eqb c) (gen_ignored_bytes ++ marker f)%list)
+  /\ (forall l nl : nat, Z.of_nat (m_incomplete_line l nl) = gen_incomplete_line (Z.of_nat l) (Z.of_nat nl))
+  /\ (forall l : nat, Z.of_nat (m_pending_incomplete_line l) = gen_pending_incomplete_line (Z.of_nat l)).
+Proof. exact (conj b_ignored_bytes (conj b_incomplete_line b_pending_incomplete_line)). Qed.
+Print Assumptions C01_eof_check_source_tie.
 
 (* The code at the pinned commit violated T2: a raw read that ends exactly at end of file left the
    unterminated tail undelivered (history; repaired in /repo by the fix: commit). *)
